@@ -49,11 +49,12 @@ class SamplePdkMosParams:
 
     def __post_init__(self):
         """Value Checks"""
-        if self.w <= 0:
+        # Note `Literal`-valued sizes, e.g. the names of netlist parameters, cannot be checked here.
+        if isinstance(self.w, h.Prefixed) and self.w <= 0:
             raise ValueError(f"MosParams with invalid width {self.w}")
-        if self.l <= 0:
+        if isinstance(self.l, h.Prefixed) and self.l <= 0:
             raise ValueError(f"MosParams with invalid length {self.l}")
-        if self.nf <= 0:
+        if isinstance(self.nf, h.Prefixed) and self.nf <= 0:
             msg = f"MosParams with invalid number parallel fingers {self.nf}"
             raise ValueError(msg)
 
